@@ -64,7 +64,7 @@ reg("C18",
          "RenameAfterAll, the quiescent invariants IndexImpliesAll / PublishedImpliesAll / RefreshSafe and the liveness 're-run completes' for the atomic store "
          "(and for the in-place store with one fault), and refutes IndexImpliesAll for the in-place store with two faults. Every transition of the graph is dumped "
          "and every path is replayed run by run on the real PipelineManager.publish() with a real LocalPipelineIo: imposed os.listdir order, faults injected at "
-         "put_item entry, after k bytes of the source (really truncated item) or at exit; the real store and directories are compared with the spec state at every "
+         "put_item entry, after k bytes of the source (really truncated item), at exit, or - action Refuse - inside the real put_item by making the creation of any file below the item's store directory raise ENOSPC (so put_item's own clean-up path runs with nothing created), plus one physical run with a file name of NAME_MAX-4 characters; the real store and directories are compared with the spec state at every "
          "hook, the property's sentences are evaluated on the real disk at every quiescent point, and the real `pipeline refresh` is run to see what it skips.",
     note="Bounded: <= 4 files / 2 images at 2 faults, 3 files at 3 faults, 5 files or 3 images at 1 fault (thorough); quick: 3 files + 2 images at 2 faults, 4 files at 1. "
          "Paths reaching the same spec state with byte-identical disk contents share their continuation (publish() assumed a function of directory contents, listing "
@@ -94,8 +94,9 @@ reg("C08",
          "with everything else undefined, for top-down and bottom-up formats; SpecAxis checks the per-axis sentences pixel by pixel at TS=256 for every length to the bound "
          "and emits the segment tables. The real StudyTiling (rectangles, count, image_to_tile for every pixel, depth, offsets, compute_for_subimage) is compared with "
          "TLC's tables for critical x all size pairs, sub-images at tile/image edges and sampled sizes to 65537, and real tilings (tile_image, Builder + WTML template, "
-         "tile-study CLI; RGB/RGBA/F32/F64/U8/I16 in png/npy/fits; sub-images inside a larger tiling) are read back from disk with independent readers.",
-    note="Bounds: 2-D exhaustive for TS=4 w,h<=9 and TS=2 <=7 (thorough: TS=4 13x13, 20x6, 6x20; TS=2 9x9; TS=8 11x11) with all sub-images; per axis TS=256 all lengths "
+         "tile-study CLI; RGB/RGBA/F32/F64/U8/I16 in png/npy/fits; every input-image default format - class default, png, npy, fits, set by constructor or by ImageLoader - x every pyramid "
+         "format that can hold the mode; sub-images inside a larger tiling) are read back from disk with independent readers and TLC's file-row table for the pyramid format's parity.",
+    note="Bounds: 2-D exhaustive for TS=4 w,h<=8 and TS=2 <=7 (thorough: TS=4 13x13, 20x6, 6x20; TS=2 9x9; TS=8 11x11) with all sub-images; per axis TS=256 all lengths "
          "<=1100 (thorough 4200). 2-D at TS=256 rests on Rects = AxisSegs x AxisSegs (checked at small TS and by IntervalPartitionOK on the emitted cases). Integer modes: "
          "'undefined' read as 0. TLC, the JSON bridge, PIL/numpy/astropy readers trusted.",
     technique="TLA+/TLC exhaustive model checking (2-D small tile size, 1-D at 256) + TLC-emitted expected tables replayed into the real code + end-to-end read-back",
@@ -109,7 +110,10 @@ reg("C10",
          "on shared npy/fits/png tiles; each body takes tickets and joins a rendezvous that can only succeed if two bodies are inside at once; final files must hold every "
          "contribution and each ticket-ordered recording must be accepted by TLC against spec/TileLockTrace.tla (TLC interposes the unobservable steps); (2) with "
          "SoftFileLock._acquire/_release, read_image and Image.save as deterministic sync points, TLC-simulated behaviours (including failed acquisitions) are stepped through "
-         "real update_image calls with state comparison after every step, and schedules of the real code are explored with every full trace validated by TLC.",
+         "real update_image calls with state comparison after every step, and schedules of the real code are explored with every full trace validated by TLC. "
+         "Lock-acquisition time is virtual in the thread layer (every failed poll advances filelock's clock by >= 1 s) and the policy 'stall the holder before modify / write-begin / "
+         "write-end / release while the waiter polls 40 times' is run; TLC refutes the design 'finite lock timeout + takeover' (StealLock) on Mutex and NoLostUpdate. The in-tree caller "
+         "ToastSampler is driven as separately started jobs with masked samplers on fresh, not yet existing tiles (barrier inside the sampler in real processes; all 2x1 schedules in the thread layer).",
     note="Bounds: exhaustive model 3x2 (thorough 4x2, 3x3), 4 abstract pixels, 2 tile positions; real runs up to 4 processes x 3 updates. Assumes atomic O_CREAT|O_EXCL and unlink, "
          "no updater crashing while holding the lock. Layer 2 runs only while update_image goes through filelock.SoftFileLock (otherwise drift; real processes decide). "
          "Real-process detection of a broken lock relies on a 0.25 s rendezvous window (affects sensitivity only). TLC, the JSON bridge and lib/simmp.Sched are trusted.",
@@ -144,13 +148,18 @@ reg("C11",
     design_ref="DESIGN.md 4.10 (PlateCarree.tla), 5/C11")
 
 reg("C16",
-    text="spec/Parity.tla models the object under flip_parity / ensure_negative_parity as a state machine over exact integers (CDELT, PC, doubled CRPIX, row order; original kept as "
-         "history). TLC enumerates kind (Image / data-less ImageDescription) x width x height x header x CRPIX and checks in every state that each stored pixel keeps its sky position "
-         "and the sign tracks the row orientation, and on every transition FlipOK (sign and determinant negated, rows reversed, World(x,y) = World'(x,h-1-y), involution) and EnsureOK "
-         "(yields -1, idempotent, no-op on negative parity). Every case's predicted signs, row orders, header values and per-pixel world tables are replayed into real astropy WCS "
-         "objects and real toasty Images / ImageDescriptions: flip, flip, ensure, ensure; signs, data rows, wcs_pix2world per pixel (1e-9 deg), linear stage vs TLC's table.",
-    note="Linear TAN WCS with non-singular integer matrices x 1e-3 deg; sizes to 4x6 (quick 3x5). Singular matrices have no parity and are excluded. astropy's projection is trusted.",
-    technique="TLA+/TLC exhaustive exploration of the flip/ensure state machine over enumerated integer WCS cases + replay of every case's predicted outcome into the real code",
+    text="spec/Parity.tla models the object under flip_parity / ensure_negative_parity as a state machine over exact integers (CDELT, PC, doubled CRPIX, the array and the PIL "
+         "representation of the pixel rows; original kept as history) for array-backed Images, PIL-backed Images (with a Touch action = any asarray()/dtype call that fills the array "
+         "cache) and data-less ImageDescriptions. TLC enumerates kind x width x height x header x CRPIX and checks in every state that each stored pixel keeps its sky position "
+         "(SkyUnchanged, SamePicture), the sign tracks the row orientation and asarray()/aspil() never disagree (ViewsAgree), and on every transition FlipOK (sign and determinant "
+         "negated, rows reversed in both views, World(x,y) = World'(x,h-1-y), involution), EnsureOK (yields -1, idempotent, no-op on negative parity) and TouchInvisible (the cache state "
+         "never influences a later flip/ensure). Every case's predicted signs, row orders of both views, header values and per-pixel world tables are replayed into real astropy WCS "
+         "objects and real toasty objects: Image.from_array (F32, RGB), ImageDescription, and PIL-backed Images (from_pil RGB/RGBA, ImageLoader on an 'L' bitmap and on a png file) "
+         "after each pre-call history (nothing, asarray, dtype, aspil, shape): flip, flip, ensure, ensure; signs, data rows through asarray() and aspil(), wcs_pix2world per pixel "
+         "(1e-9 deg), linear stage vs TLC's table; header values as drift only.",
+    note="Linear TAN WCS with non-singular integer matrices x 1e-3 deg; sizes to 4x6 (quick 3x5); PIL-backed kinds on every 4th header, every (backing, history, starting sign) "
+         "combination required. Singular matrices have no parity and are excluded. astropy's projection is trusted.",
+    technique="TLA+/TLC exhaustive exploration of the flip/ensure/touch state machine over enumerated integer WCS cases + replay of every case's predicted outcome into the real code",
     design_ref="DESIGN.md 4.10 (Parity.tla), 5/C16")
 
 reg("C15",
